@@ -543,6 +543,185 @@ def check_fingerprints(src: Path):
     if bad:
         raise Refuse('hand-modelled functions changed since the model was written (fingerprint): ' + ', '.join(sorted(bad)))
 
+
+# ---------------------------------------------------------------- helpers the modelled behaviour relies on
+# (file, path) -> normalised-AST fingerprint.  path = 'Class.method', 'Class' (whole class body) or 'function'.
+HELPER_PINS = {
+    'events.py': ['on_message', 'build_message_map', 'EventBus.register', 'EventBus.emit', 'EventBus._get_listeners_for_event',
+                  'EventBus._remove_callback', 'ConnectionStateChangedEvent', 'PeerInitializedEvent', 'MessageReceivedEvent',
+                  'SessionInitializedEvent', 'SessionDestroyedEvent'],
+    'distributed.py': ['DistributedPeer', 'DistributedNetwork.__init__', 'DistributedNetwork.register_listeners'],
+    'base_manager.py': ['BaseManager'],
+    'session.py': ['Session'],
+    'utils.py': ['ticket_generator'],
+    'network/network.py': ['Network.send_server_messages', 'Network.send_peer_messages', 'Network.get_peer_connection',
+                           'Network.get_peer_connections', 'Network.get_active_peer_connections', 'Network.remove_peer_connection',
+                           'Network.on_state_changed', 'Network._on_peer_connection_state_changed', 'Network.on_peer_accepted',
+                           'Network.on_message_received', 'Network._finalize_peer_connection', 'Network._make_direct_connection',
+                           'Network.create_peer_connection', 'Network._create_peer_connection_fallback'],
+    'network/connection.py': ['Connection.set_state', 'DataConnection.disconnect', 'DataConnection.send_message', 'DataConnection._send',
+                              'DataConnection._message_reader_loop', 'DataConnection._perform_message_callback',
+                              'PeerConnection.set_connection_state', 'PeerConnection.deserialize_message', 'ListeningConnection.accept',
+                              'PeerConnectionType', 'ConnectionState', 'CloseReason', 'PeerConnectionState'],
+    'protocol/messages.py': ['BranchLevel', 'BranchRoot', 'ToggleParentSearch', 'AcceptChildren', 'PotentialParents', 'ParentMinSpeed',
+                             'ParentSpeedRatio', 'GetUserStats', 'ResetDistributed', 'ServerSearchRequest', 'DistributedBranchLevel',
+                             'DistributedBranchRoot', 'DistributedSearchRequest', 'DistributedServerSearchRequest', 'DistributedChildDepth',
+                             'PeerSearchReply', 'PeerInit', 'DistributedMessage'],
+    'protocol/primitives.py': ['PotentialParent', 'UserStats'],
+    'settings.py': ['UsersSettings', 'DebugSettings', 'SearchReceiveSettings', 'translate_blocked_users'],
+    'user/model.py': ['BlockingFlag'],
+    'shares/utils.py': ['convert_items_to_file_data'],
+    'search/manager.py': ['SearchManager.register_listeners', 'SearchManager._on_message_received', 'SearchManager._search_reply_task_callback'],
+}
+HELPER_FINGERPRINTS = {
+    'base_manager.py:BaseManager': '8b32ea76ba84689880df',
+    'distributed.py:DistributedNetwork.__init__': '9c15816a0292e5467b15',
+    'distributed.py:DistributedNetwork.register_listeners': '507524a387992325a4e4',
+    'distributed.py:DistributedPeer': '4ab0e59a8568964ec02e',
+    'events.py:ConnectionStateChangedEvent': 'e86c0eb2ccda915abb1f',
+    'events.py:EventBus._get_listeners_for_event': '063b743566f6e0a50e7e',
+    'events.py:EventBus._remove_callback': 'd99e3b06cdd91c2e51bb',
+    'events.py:EventBus.emit': '57d56e297a3567d646e9',
+    'events.py:EventBus.register': '7e1ec9431145a02b1106',
+    'events.py:MessageReceivedEvent': '058b165da11f056b84f9',
+    'events.py:PeerInitializedEvent': 'ab654e33e2f13d71f974',
+    'events.py:SessionDestroyedEvent': '970644fa805a7ad18531',
+    'events.py:SessionInitializedEvent': '8400f615bc924ead3de9',
+    'events.py:build_message_map': 'd307f18789ade5503e02',
+    'events.py:on_message': 'daba6650c9d0139a60c1',
+    'network/connection.py:CloseReason': 'b5633b735a1883b1513a',
+    'network/connection.py:Connection.set_state': '8d4fe1c44cbf72d2ce9a',
+    'network/connection.py:ConnectionState': '8ce201488633a95c698b',
+    'network/connection.py:DataConnection._message_reader_loop': '424d25dc9c3c5216d466',
+    'network/connection.py:DataConnection._perform_message_callback': '08e4531c27f8feb91cc7',
+    'network/connection.py:DataConnection._send': '029e0d452f19d6835f3b',
+    'network/connection.py:DataConnection.disconnect': 'de09aad79023dcc5d6c6',
+    'network/connection.py:DataConnection.send_message': '36a705cf54e09a572384',
+    'network/connection.py:ListeningConnection.accept': '15656d56fd6e494f884a',
+    'network/connection.py:PeerConnection.deserialize_message': 'dce75f16e5922b79bac3',
+    'network/connection.py:PeerConnection.set_connection_state': 'f9ec7bd676cef922085f',
+    'network/connection.py:PeerConnectionState': '1616262b8212cad0f240',
+    'network/connection.py:PeerConnectionType': '68657a7dfe3be466945f',
+    'network/network.py:Network._create_peer_connection_fallback': '20f8ce39862f7be836b1',
+    'network/network.py:Network._finalize_peer_connection': 'c4462a82909498041ac4',
+    'network/network.py:Network._make_direct_connection': '79bb0242cb622c273c75',
+    'network/network.py:Network._on_peer_connection_state_changed': 'ea547ce4131e93c56d5e',
+    'network/network.py:Network.create_peer_connection': 'dc65b0198ae1b156fbe6',
+    'network/network.py:Network.get_active_peer_connections': '5ab41da13523fecad45a',
+    'network/network.py:Network.get_peer_connection': '501b733fa597575e6683',
+    'network/network.py:Network.get_peer_connections': 'eada8a71a14ea041fcac',
+    'network/network.py:Network.on_message_received': 'd7842987b0c3f85735cd',
+    'network/network.py:Network.on_peer_accepted': '7b4fa90138dd6f6a1f28',
+    'network/network.py:Network.on_state_changed': 'e7796d12eabb5d909bf4',
+    'network/network.py:Network.remove_peer_connection': 'a245d65e9caca91b8bb3',
+    'network/network.py:Network.send_peer_messages': '9cfea2bcbe04fb77fb2c',
+    'network/network.py:Network.send_server_messages': '0d997361eda2cbeb3896',
+    'protocol/messages.py:AcceptChildren': '25f0ddbf2eee676209de',
+    'protocol/messages.py:BranchLevel': 'f8413f400ccd9c7aa992',
+    'protocol/messages.py:BranchRoot': 'ed9d2a547bbbcb30da53',
+    'protocol/messages.py:DistributedBranchLevel': '8a9b044727ef326a1d97',
+    'protocol/messages.py:DistributedBranchRoot': 'dec6a56456213847182c',
+    'protocol/messages.py:DistributedChildDepth': '41425ee9a884b8160b6f',
+    'protocol/messages.py:DistributedMessage': 'efb0efe90fed08c76961',
+    'protocol/messages.py:DistributedSearchRequest': 'f4cac477d7a0df737784',
+    'protocol/messages.py:DistributedServerSearchRequest': 'e61e8685f5667d70d814',
+    'protocol/messages.py:GetUserStats': 'cb7d272ef52e2a97d92a',
+    'protocol/messages.py:ParentMinSpeed': '81ae0612d672fb1ca55a',
+    'protocol/messages.py:ParentSpeedRatio': 'b5da023405ca5594b614',
+    'protocol/messages.py:PeerInit': 'b1714afd426f4a2a9371',
+    'protocol/messages.py:PeerSearchReply': 'ea5d9ef3ee0b665d4cd3',
+    'protocol/messages.py:PotentialParents': '5968abc31687bfdd8fb2',
+    'protocol/messages.py:ResetDistributed': '34b9f5608c98f76bcd91',
+    'protocol/messages.py:ServerSearchRequest': '5ba4514c3908f3f37289',
+    'protocol/messages.py:ToggleParentSearch': '049da40ac5c4450c1d11',
+    'protocol/primitives.py:PotentialParent': 'e8f7ebf7c4953f506bd8',
+    'protocol/primitives.py:UserStats': 'a7ad9208beaead5b97c6',
+    'search/manager.py:SearchManager._on_message_received': 'f81c82176fdfe5de2e27',
+    'search/manager.py:SearchManager._search_reply_task_callback': '80e97756f5055bff6a0f',
+    'search/manager.py:SearchManager.register_listeners': 'b6c6d976ab6c8e52119d',
+    'session.py:Session': 'ced34eddf756b132af5d',
+    'settings.py:DebugSettings': '9f51df9ca7218f41ac6f',
+    'settings.py:SearchReceiveSettings': '12fafd9dbcb05d7884f9',
+    'settings.py:UsersSettings': '3a86d3d610cfcf44cc6a',
+    'settings.py:translate_blocked_users': '18686ecd71db2676ab78',
+    'shares/utils.py:convert_items_to_file_data': 'da95ca4a3239fb4164b6',
+    'user/model.py:BlockingFlag': 'f56b0067904a82859f42',
+    'utils.py:ticket_generator': '950e79455ec1276db827',
+}   # regenerate with:  python -m translate.tr_dist --helper-fingerprints
+
+
+def _node_fp(node) -> str:
+    if isinstance(node, ast.ClassDef):
+        import copy
+        body = [_Clean().visit(copy.deepcopy(x)) for x in node.body]
+        txt = [' '.join(_src(d).split()) for d in node.decorator_list] + [' '.join(_src(b).split()) for b in node.bases] + \
+              [' '.join(_src(x).split()) for x in body if x is not None]
+    else:
+        txt = [' '.join(_src(d).split()) for d in node.decorator_list] + [_src(node.args)] + _stmts(node)
+    return hashlib.sha256('\n'.join(txt).encode()).hexdigest()[:20]
+
+
+def _find_path(tree, path):
+    parts = path.split('.')
+    body = tree.body
+    node = None
+    for i, name in enumerate(parts):
+        node = next((n for n in body if isinstance(n, (ast.ClassDef, ast.FunctionDef, ast.AsyncFunctionDef)) and n.name == name), None)
+        if node is None:
+            raise Refuse(f'helper {path} not found')
+        body = getattr(node, 'body', [])
+    return node
+
+
+def current_helper_fingerprints(src: Path) -> dict:
+    res = {}
+    for rel, paths in HELPER_PINS.items():
+        tree = ast.parse((src / 'aioslsk' / rel).read_text())
+        for pth in paths:
+            res[f'{rel}:{pth}'] = _node_fp(_find_path(tree, pth))
+    return res
+
+
+def check_helper_fingerprints(src: Path):
+    cur = current_helper_fingerprints(src)
+    bad = [k for k in cur if HELPER_FINGERPRINTS.get(k) != cur[k]]
+    if bad:
+        raise Refuse('helper code the model relies on changed (fingerprint): ' + ', '.join(sorted(bad)))
+
+
+def tr_helper_constants(src: Path) -> str:
+    """values of helper enums / defaults the model and the harness actually use"""
+    out = ['(* helper values the model relies on *)\n']
+    st = ast.parse((src / 'aioslsk' / 'settings.py').read_text())
+    dbg = find_class(st, 'DebugSettings')
+    val = None
+    for n in dbg.body:
+        if isinstance(n, ast.AnnAssign) and isinstance(n.target, ast.Name) and n.target.id == 'search_for_parent' and isinstance(n.value, ast.Constant):
+            val = n.value.value
+    if not isinstance(val, bool):
+        raise Refuse('DebugSettings.search_for_parent default')
+    out.append(f'Definition search_for_parent_default : bool := {"true" if val else "false"}.\n')
+    ct = ast.parse((src / 'aioslsk' / 'network' / 'connection.py').read_text())
+    pct = find_class(ct, 'PeerConnectionType')
+    vals = {n.targets[0].id: n.value.value for n in pct.body if isinstance(n, ast.Assign) and isinstance(n.value, ast.Constant)}
+    if vals.get('DISTRIBUTED') != 'D' or len(set(vals.values())) != len(vals):
+        raise Refuse(f'PeerConnectionType values: {vals}')
+    um = ast.parse((src / 'aioslsk' / 'user' / 'model.py').read_text())
+    bf = find_class(um, 'BlockingFlag')
+    bvals = {n.targets[0].id: n.value.value for n in bf.body if isinstance(n, ast.Assign) and isinstance(n.value, ast.Constant)}
+    s_ = bvals.get('SEARCHES')
+    if not isinstance(s_, int) or s_ <= 0 or (s_ & (s_ - 1)) != 0 or list(bvals.values()).count(s_) != 1:
+        raise Refuse(f'BlockingFlag.SEARCHES is not a distinct single bit: {bvals}')
+    out.append(f'Definition BLOCKING_FLAG_SEARCHES : Z := {s_}.\n')
+    # listener priorities: DistributedNetwork and SearchManager register with the default priority, in construction order
+    ev = ast.parse((src / 'aioslsk' / 'events.py').read_text())
+    reg = _find_path(ev, 'EventBus.register')
+    d = reg.args.defaults
+    if not (len(d) == 1 and isinstance(d[0], ast.Constant) and isinstance(d[0].value, int)):
+        raise Refuse('EventBus.register default priority')
+    out.append(f'Definition DEFAULT_LISTENER_PRIORITY : Z := {d[0].value}.\n')
+    return ''.join(out)
+
 # ---------------------------------------------------------------- search carriers: own-name filters
 def _own_filter(fn, user_expr='message.username') -> bool:
     """True iff the handler returns before doing anything when message.username is the session user."""
@@ -603,6 +782,8 @@ def translate(src: Path) -> dict:
     out.append(tr_parent_update(cls) + '\n')
     out.append(tr_effects(cls) + '\n')
     check_fingerprints(src)
+    out.append(tr_helper_constants(src) + '\n')
+    check_helper_fingerprints(src)
 
     # legacy carrier: code test
     leg = find_func(cls.body, '_on_distributed_server_search_request')
@@ -663,6 +844,10 @@ def translate(src: Path) -> dict:
 
 if __name__ == '__main__':
     import sys
+    if len(sys.argv) > 1 and sys.argv[1] == '--helper-fingerprints':
+        import json
+        print(json.dumps(current_helper_fingerprints(Path('/repo/src')), indent=1))
+        sys.exit(0)
     if len(sys.argv) > 1 and sys.argv[1] == '--fingerprints':
         import json
         print(json.dumps(current_fingerprints(Path('/repo/src')), indent=1))
